@@ -38,6 +38,10 @@ type drv struct {
 	distinct  map[uint64]bool
 	last      *entities.InfoElement
 	resetPrev []int // non-nil: the element object first carries this value and is reset before it is encoded
+	setLater  []int // non-nil: the element is added to its record with this value and set to the value under test afterwards
+	fromNil   bool  // the element is created value-less and set through its setter (and so is a sibling, with otherVal)
+	otherVal  []int
+	nLater    int
 }
 
 func (d *drv) template(ie *entities.InfoElement) (int, bool) {
@@ -81,9 +85,27 @@ func (d *drv) one(ie *entities.InfoElement, abs []int) {
 	if d.resetPrev != nil {
 		first = d.resetPrev // history on one element object: carries this value, is reset, is then encoded
 	}
-	elem, err := gen.Elem(ie, first)
-	if err != nil {
-		panic(err)
+	if d.setLater != nil {
+		first = d.setLater // the element is created (and added to its record) with this value and gets abs through its setter afterwards
+	}
+	var elem entities.InfoElementWithValue
+	var err error
+	if d.fromNil {
+		// an element created value-less (as for a template) and given its value through the setter; a second element
+		// of the same information element, created the same way, gets another value before the first is encoded
+		elem, err = entities.DecodeAndCreateInfoElementWithValue(ie, nil)
+		if err != nil {
+			panic(err)
+		}
+		gen.Set(elem, abs)
+		other, _ := entities.DecodeAndCreateInfoElementWithValue(ie, nil)
+		gen.Set(other, d.otherVal)
+		ev["fromNil"] = true
+	} else {
+		elem, err = gen.Elem(ie, first)
+		if err != nil {
+			panic(err)
+		}
 	}
 	if d.resetPrev != nil {
 		elem.ResetValue()
@@ -95,7 +117,22 @@ func (d *drv) one(ie *entities.InfoElement, abs []int) {
 	if err := set.PrepareSet(entities.Data, uint16(tid)); err != nil {
 		panic(err)
 	}
-	if err := set.AddRecord([]entities.InfoElementWithValue{elem, sent}, uint16(tid)); err != nil {
+	if d.setLater != nil {
+		// the record holds THESE element objects (both add paths, alternating); the value is set after the add, before anything is encoded
+		var aerr error
+		d.nLater++
+		if d.nLater%2 == 0 {
+			aerr = set.AddRecordV2([]entities.InfoElementWithValue{elem, sent}, uint16(tid))
+		} else {
+			aerr = set.AddRecord([]entities.InfoElementWithValue{elem, sent}, uint16(tid))
+		}
+		if aerr != nil {
+			panic(aerr)
+		}
+		gen.Set(elem, abs)
+		ev["setLater"] = true
+		ev["reported"] = elem.GetLength()
+	} else if err := set.AddRecord([]entities.InfoElementWithValue{elem, sent}, uint16(tid)); err != nil {
 		panic(err)
 	}
 	rec := set.GetRecords()[0]
@@ -221,6 +258,20 @@ func main() {
 	for _, ie := range fixed {
 		for i := 0; i < nrand; i++ {
 			d.one(ie, gen.Abs(r, ie, 0))
+		}
+	}
+	// order of operations on element and record objects: value set after the element was added to its record (fixed-width
+	// types: the record length does not depend on the value); elements created value-less and set through their setters
+	for _, ie := range custom[:18] {
+		for i := 0; i < 4; i++ {
+			if gen.Width(ie) > 0 {
+				d.setLater = gen.Abs(r, ie, 0)
+				d.one(ie, gen.Abs(r, ie, 0))
+				d.setLater = nil
+			}
+			d.fromNil, d.otherVal = true, gen.Abs(r, ie, 40)
+			d.one(ie, gen.Abs(r, ie, 40))
+			d.fromNil = false
 		}
 	}
 	// reset histories: one element of every type, several previous values each
